@@ -13,7 +13,9 @@
      horner      1 draw a, coef_i = a^(n-i)              share ONE series, hence pairwise distinct powers)
 
    and the same three functions for the DEEP composition coefficients (trace columns first, constraint
-   composition columns after).
+   composition columns after).  The auxiliary random elements of a multi-segment AIR are `rands`
+   independent draws, in order (a randomized AIR compresses a row as r_0 x + r_1 y + ..: equal elements
+   would not tell (x, y) from (y, x)).
 
    Design level (MCCoeffsDesign.cfg): over a small prime field TLC checks exhaustively the
    Schwartz-Zippel bound that the soundness argument uses -- for EVERY non-zero vector c in F^n the
@@ -61,9 +63,13 @@ CoeffCase(P, c, ext, cb, db, seed) ==
       ddeep == Draws(P, ext, seed + 1, DrawsUsed(db, ndeep))
       vcc   == Split(CoeffVector(P, cb, ncc, dcc), NT(c))
       vdeep == Split(CoeffVector(P, db, ndeep, ddeep), TW(c))
+      \* auxiliary random elements: as many INDEPENDENT draws as the auxiliary segment declares, in order
+      nrand == IF HasAux(c) THEN c.aux[1].rands ELSE 0
+      daux  == Draws(P, ext, seed + 2, nrand)
   IN [desc |-> DescJson(c), field |-> P, ext |-> ext, cbatch |-> cb, dbatch |-> db, blowup |-> c.blowup,
-      cc_draws |-> dcc, deep_draws |-> ddeep,
-      expect |-> [transition |-> vcc.first, boundary |-> vcc.rest, cc_used |-> Len(dcc),
+      cc_draws |-> dcc, deep_draws |-> ddeep, aux_draws |-> daux,
+      expect |-> [aux_rands |-> daux, aux_used |-> nrand,
+                  transition |-> vcc.first, boundary |-> vcc.rest, cc_used |-> Len(dcc),
                   trace |-> vdeep.first, constraints |-> vdeep.rest, deep_used |-> Len(ddeep),
                   \* must agree with the schedule Transcript.tla uses
                   ncc |-> NumConstraintCoeffDraws([c EXCEPT !.cbatch = cb]),
